@@ -22,10 +22,10 @@ Check (C07_arp_accessors_safe : forall bs,
 
 Check (C07_arp_parse_total : forall bs, bytes_ok bs = true -> arp_parse bs <> Panic).
 
-Check (C07_udp_accessors_safe : forall sum_ok (sum_fill : list Z -> Z) bs,
+Check (C07_udp_accessors_safe : forall sum_ok (sum_fill : list Z -> Z) is_v4 bs,
   bytes_ok bs = true -> udp_check_len bs = Ok tt ->
   udp_src_port bs <> Panic /\ udp_dst_port bs <> Panic /\ udp_len bs <> Panic /\
-  udp_checksum bs <> Panic /\ udp_payload bs <> Panic /\ udp_verify_checksum sum_ok bs <> Panic).
+  udp_checksum bs <> Panic /\ udp_payload bs <> Panic /\ udp_verify_checksum sum_ok is_v4 bs <> Panic).
 
 Check (C07_udp_parse_total : forall sum_ok (sum_fill : list Z -> Z) is_v4 rx bs,
   bytes_ok bs = true -> udp_parse sum_ok is_v4 rx bs <> Panic).
